@@ -835,4 +835,261 @@ theorem lookup_slot {S : List Item} {kk : Nat} {s : Item} (hs : S[kk]? = some s)
   rw [List.getElem?_map, List.getElem?_eq_getElem hr']
   simp [hs2]
 
+
+/-! ### `ismember_columns` -/
+
+theorem mem_dedup {α : Type} [DecidableEq α] {x : α} {l : List α} : x ∈ dedup l ↔ x ∈ l := by
+  induction l with
+  | nil => simp [dedup]
+  | cons c l ih =>
+    simp only [dedup]
+    split
+    · rename_i hc
+      rw [ih, List.mem_cons]
+      constructor
+      · exact Or.inr
+      · rintro (rfl | h)
+        · exact hc
+        · exact h
+    · simp [List.mem_cons, ih]
+
+theorem dedup_sublist {α : Type} [DecidableEq α] (l : List α) : (dedup l).Sublist l := by
+  induction l with
+  | nil => exact List.Sublist.slnil
+  | cons c l ih =>
+    simp only [dedup]
+    split
+    · exact List.Sublist.cons _ ih
+    · exact List.Sublist.cons_cons _ ih
+
+theorem nodup_dedup {α : Type} [DecidableEq α] (l : List α) : (dedup l).Nodup := by
+  induction l with
+  | nil => simp [dedup]
+  | cons c l ih =>
+    simp only [dedup]
+    split
+    · exact ih
+    · rename_i hc
+      exact List.nodup_cons.mpr ⟨fun h => hc (mem_dedup.mp h), ih⟩
+
+theorem idxOf_eq_iff {α : Type} [BEq α] [LawfulBEq α] {u : List α} {c d : α} (hc : c ∈ u) :
+    u.idxOf c = u.idxOf d ↔ c = d := by
+  constructor
+  · intro h
+    have h1 : u.idxOf c < u.length := List.idxOf_lt_length_of_mem hc
+    have h2 : u.idxOf d < u.length := h ▸ h1
+    have e1 := List.getElem_idxOf h1
+    have e2 := List.getElem_idxOf h2
+    rw [← e1, ← e2]
+    simp [h]
+  · rintro rfl; rfl
+
+/-- reading the first position of `f c` in `b.map f` is a first-match search in `b` when `f`
+    separates `c` from the elements of `b` exactly as the predicate does -/
+theorem idxOf_map_eq_findIdx {α : Type} (f : α → Nat) (p : α → Bool) (v : Nat) (b : List α)
+    (h : ∀ d ∈ b, (f d = v ↔ p d = true)) : (b.map f).idxOf v = b.findIdx p := by
+  induction b with
+  | nil => simp
+  | cons d b ih =>
+    have hd := h d List.mem_cons_self
+    have ih' := ih (fun d' hd' => h d' (List.mem_cons_of_mem _ hd'))
+    simp only [List.map_cons, List.idxOf_cons, List.findIdx_cons]
+    by_cases hp : p d = true
+    · simp [hp, hd.mpr hp]
+    · have : ¬ f d = v := fun e => hp (hd.mp e)
+      have hb : (f d == v) = false := by simpa using this
+      simp [hp, hb, ih']
+
+theorem contains_map_iff_any {α : Type} (f : α → Nat) (p : α → Bool) (v : Nat) (b : List α)
+    (h : ∀ d ∈ b, (f d = v ↔ p d = true)) : (b.map f).contains v = b.any p := by
+  induction b with
+  | nil => simp
+  | cons d b ih =>
+    have hd := h d List.mem_cons_self
+    have ih' := ih (fun d' hd' => h d' (List.mem_cons_of_mem _ hd'))
+    simp only [List.map_cons, List.contains_cons, List.any_cons, ih']
+    by_cases hp : p d = true
+    · simp [hp, hd.mpr hp]
+    · have : ¬ f d = v := fun e => hp (hd.mp e)
+      have hp' : p d = false := by simpa using hp
+      simp [hp', Ne.symm this]
+
+theorem map_filter_pipeline {α : Type} (a : List α) (h : α → Nat) (P : Nat → Bool) (Q : α → Bool)
+    (F : Nat → Nat) (G : α → Nat) (hPQ : ∀ c ∈ a, P (h c) = Q c) (hFG : ∀ c ∈ a, F (h c) = G c) :
+    (a.map h).map P = a.map Q ∧ ((a.map h).filter P).map F = (a.filter Q).map G := by
+  induction a with
+  | nil => simp
+  | cons c a ih =>
+    obtain ⟨ih1, ih2⟩ := ih (fun c' hc' => hPQ c' (List.mem_cons_of_mem _ hc'))
+      (fun c' hc' => hFG c' (List.mem_cons_of_mem _ hc'))
+    have h1 := hPQ c List.mem_cons_self
+    have h2 := hFG c List.mem_cons_self
+    refine ⟨by simp [h1, ih1], ?_⟩
+    simp only [List.map_cons, List.filter_cons, h1]
+    cases Q c
+    · simpa using ih2
+    · simp [h2, ih2]
+
+theorem ismember_eq_brute' (a b : List Col) (sort : Bool) : ismember a b sort = bruteMember a b sort := by
+  unfold ismember bruteMember
+  simp only
+  generalize hu : dedup (isortBy lexLe (a.map (colKey sort) ++ b.map (colKey sort))) = u
+  have hmemu : ∀ c, c ∈ a ∨ c ∈ b → colKey sort c ∈ u := by
+    intro c hc
+    rw [← hu, mem_dedup, mem_isortBy, List.mem_append, List.mem_map, List.mem_map]
+    rcases hc with h | h
+    · exact Or.inl ⟨c, h, rfl⟩
+    · exact Or.inr ⟨c, h, rfl⟩
+  have eA : (a.map (colKey sort)).map (fun c => u.idxOf c) = a.map (fun c => u.idxOf (colKey sort c)) := by
+    rw [List.map_map]; rfl
+  have eB : (b.map (colKey sort)).map (fun c => u.idxOf c) = b.map (fun c => u.idxOf (colKey sort c)) := by
+    rw [List.map_map]; rfl
+  rw [eA, eB]
+  have hsep : ∀ c, c ∈ a → ∀ d ∈ b, (u.idxOf (colKey sort d) = u.idxOf (colKey sort c) ↔
+      decide (colKey sort c = colKey sort d) = true) := by
+    intro c _ d hd
+    rw [decide_eq_true_iff]
+    exact ⟨fun h => ((idxOf_eq_iff (hmemu d (Or.inr hd))).mp h).symm, fun h => by rw [h]⟩
+  have := map_filter_pipeline a (fun c => u.idxOf (colKey sort c))
+    (fun i => (b.map (fun c => u.idxOf (colKey sort c))).contains i)
+    (fun c => b.any (fun d => decide (colKey sort c = colKey sort d)))
+    (fun i => (b.map (fun c => u.idxOf (colKey sort c))).idxOf i)
+    (fun c => b.findIdx (fun d => decide (colKey sort c = colKey sort d)))
+    (fun c hc => contains_map_iff_any _ _ _ b (hsep c hc))
+    (fun c hc => idxOf_map_eq_findIdx _ _ _ b (hsep c hc))
+  rw [this.1, this.2]
+
+/-! sorted columns are equal iff the columns are permutations of each other -/
+
+theorem eq_of_perm_sorted {l1 l2 : List Int} (h1 : l1.Pairwise (· ≤ ·)) (h2 : l2.Pairwise (· ≤ ·))
+    (h : l1.Perm l2) : l1 = l2 := by
+  induction l1 generalizing l2 with
+  | nil => exact (List.Perm.nil_eq h)
+  | cons a l1 ih =>
+    cases l2 with
+    | nil => exact absurd h.length_eq (by simp)
+    | cons b l2 =>
+      rw [List.pairwise_cons] at h1 h2
+      have hab : a = b := by
+        rcases List.mem_cons.mp (h.mem_iff.mp List.mem_cons_self) with e | e
+        · exact e
+        · rcases List.mem_cons.mp (h.mem_iff.mpr List.mem_cons_self) with e' | e'
+          · exact e'.symm
+          · have := h1.1 b e'
+            have := h2.1 a e
+            omega
+      subst hab
+      congr 1
+      exact ih h1.2 h2.2 (List.Perm.cons_inv h)
+
+theorem sortCol_sorted (c : Col) : (sortCol c).Pairwise (· ≤ ·) := by
+  unfold sortCol
+  refine List.Pairwise.imp (fun h => of_decide_eq_true h) (isortBy_pairwise _ ?_ ?_ _)
+  · intro a b
+    rcases Int.le_total a b with h | h
+    · left; exact decide_eq_true h
+    · right; exact decide_eq_true h
+  · intro a b c h1 h2
+    exact decide_eq_true (Int.le_trans (of_decide_eq_true h1) (of_decide_eq_true h2))
+
+theorem sortCol_eq_iff_perm' (c d : Col) : sortCol c = sortCol d ↔ c.Perm d := by
+  constructor
+  · intro h
+    have h1 : (sortCol c).Perm c := isortBy_perm _ _
+    have h2 : (sortCol d).Perm d := isortBy_perm _ _
+    exact h1.symm.trans (h ▸ h2)
+  · intro h
+    have h1 : (sortCol c).Perm c := isortBy_perm _ _
+    have h2 : (sortCol d).Perm d := isortBy_perm _ _
+    exact eq_of_perm_sorted (sortCol_sorted c) (sortCol_sorted d) (h1.trans (h.trans h2.symm))
+
+
+/-! ### `intersect_sets` -/
+
+theorem enumFrom_fst_sorted {α : Type} (k : Nat) (l : List α) :
+    (enumFrom k l).Pairwise (fun a b => a.1 < b.1) := by
+  induction l generalizing k with
+  | nil => simp [enumFrom]
+  | cons x l ih =>
+    simp only [enumFrom]
+    refine List.Pairwise.cons ?_ (ih (k + 1))
+    rintro ⟨i, y⟩ hy
+    have := (mem_enumFrom.mp hy).1
+    show k < i
+    omega
+
+theorem mem_filter_enum_fst {α : Type} (l : List α) (p : α → Bool) (i : Nat) :
+    i ∈ ((enumFrom 0 l).filter (fun r => p r.2)).map (·.1) ↔ ∃ x, l[i]? = some x ∧ p x = true := by
+  rw [List.mem_map]
+  constructor
+  · rintro ⟨⟨i', x⟩, h, rfl⟩
+    rw [List.mem_filter, mem_enumFrom] at h
+    exact ⟨x, by simpa using h.1.2, h.2⟩
+  · rintro ⟨x, hx, hp⟩
+    exact ⟨(i, x), List.mem_filter.mpr ⟨mem_enumFrom.mpr ⟨Nat.zero_le _, by simpa using hx⟩, hp⟩, rfl⟩
+
+theorem filter_enum_fst_sorted {α : Type} (l : List α) (p : Nat × α → Bool) :
+    (((enumFrom 0 l).filter p).map (·.1)).Pairwise (· < ·) := by
+  rw [List.pairwise_map]
+  exact List.Pairwise.filter _ (enumFrom_fst_sorted 0 l)
+
+theorem mem_neighbours {t : Rat} {b : List Pt} {p : Pt} {j : Nat} :
+    j ∈ neighbours t b p ↔ ∃ q, b[j]? = some q ∧ dist2 p q ≤ t * t := by
+  unfold neighbours
+  rw [mem_filter_enum_fst b (fun q => decide (dist2 p q ≤ t * t)) j]
+  simp
+
+theorem dedup_sorted_strict (l : List Nat) :
+    (dedup (isortBy (fun x y => decide (x ≤ y)) l)).Pairwise (· < ·) := by
+  have hs : (isortBy (fun x y : Nat => decide (x ≤ y)) l).Pairwise (· ≤ ·) := by
+    refine List.Pairwise.imp (fun h => of_decide_eq_true h) (isortBy_pairwise _ ?_ ?_ _)
+    · intro a b
+      rcases Nat.le_total a b with h | h
+      · left; exact decide_eq_true h
+      · right; exact decide_eq_true h
+    · intro a b c h1 h2
+      exact decide_eq_true (Nat.le_trans (of_decide_eq_true h1) (of_decide_eq_true h2))
+  have h1 := List.Pairwise.sublist (dedup_sublist _) hs
+  have h2 := List.nodup_iff_pairwise_ne.mp (nodup_dedup (isortBy (fun x y : Nat => decide (x ≤ y)) l))
+  exact (h1.and h2).imp (fun h => Nat.lt_of_le_of_ne h.1 h.2)
+
+/-! ### squared triangle inequality -/
+
+theorem dist2_nil_right (p : Pt) : dist2 p [] = norm2 p := by
+  cases p <;> simp [dist2, norm2]
+
+theorem dist2_le_two_norms (q r : Pt) : dist2 q r ≤ 2 * (norm2 q + norm2 r) := by
+  induction q generalizing r with
+  | nil => simp only [dist2, norm2]; nlinarith [norm2_nonneg r]
+  | cons y q ih =>
+    cases r with
+    | nil => simp only [dist2, norm2]; nlinarith [norm2_nonneg q, mul_self_nonneg y]
+    | cons z r =>
+      simp only [dist2, norm2]
+      nlinarith [ih r, mul_self_nonneg (y + z)]
+
+/-- triangle inequality in squared (parallelogram) form -/
+theorem dist2_triangle (p q r : Pt) : dist2 q r ≤ 2 * (dist2 p q + dist2 p r) := by
+  induction p generalizing q r with
+  | nil => simp only [dist2]; exact dist2_le_two_norms q r
+  | cons x p ih =>
+    cases q with
+    | nil =>
+      cases r with
+      | nil => simp only [dist2, norm2]; nlinarith [norm2_nonneg p, mul_self_nonneg x]
+      | cons z r =>
+        have := ih [] r
+        simp only [dist2, norm2, dist2_nil_right] at this ⊢
+        nlinarith [mul_self_nonneg (2 * x - z)]
+    | cons y q =>
+      cases r with
+      | nil =>
+        have := ih q []
+        simp only [dist2, dist2_nil_right] at this ⊢
+        nlinarith [mul_self_nonneg (2 * x - y)]
+      | cons z r =>
+        have := ih q r
+        simp only [dist2]
+        nlinarith [mul_self_nonneg (2 * x - y - z)]
+
 end PorepyVerif.C34
